@@ -265,6 +265,7 @@ def daemon_part(prop, shards):
 for _p in ("C13", "C15"):
     CHECKS[_p]["parts"].append(dict(name="addresser", pkg="internal/system", test="TestVerifAddresser", shards={"quick": 1, "thorough": 1}, env={"VERIF_PROP": _p}))
 
+CHECKS["C05"]["parts"].append(dict(name="race", pkg="internal/corerad", test="TestVerifC05", race=True, shards={"quick": 4, "thorough": 16}, env={"VERIF_PART": "race", "VERIF_TIMING": "0"}))
 CHECKS["C01"]["parts"].append(dict(name="concurrent", pkg="internal/config", test="TestVerifC01Concurrent", race=True, shards={"quick": 4, "thorough": 8}))
 
 for _p in ("C13", "C14", "C15"):
